@@ -68,6 +68,13 @@ def check(run):
             st8, failed8, _e8 = D.verify_function(run, "generation/simplifier.py", "check_results", (lambda mk_=mk_, r=r: mk_(r)), timeout_ms=10000,
                                                   tag="%s, %s" % (tag_, "root" if r else "other ranks"), note=note_)
             failed3 = list(failed3) + list(failed8)
+    st9, failed9, _e9 = D.verify_function(run, "generation/simplifier.py", "check_results", c_spmd.check_results_offset_contract, timeout_ms=10000, tag="report offset",
+                                          note="region: from `to_change = []` to the loop over the rank's functions; split_idx through its verified contract")
+    failed3 = list(failed3) + list(failed9)
+    if st9 == "proved" and D.canary(run, "generation/simplifier.py", "check_results", c_spmd.check_results_offset_contract) is False:
+        raise RuntimeError("canary verified: engine vacuous on the offset region of check_results")
+    rfailed = D.structural_generic(run, ["generation/simplifier.py"], c_spmd.check_results_report_obligations, "pyvc (AST analysis)",
+                                   "structural companion of the offset contract: shape of the records appended to to_change, back-mapping through the shuffle")
     if D.canary(run, "generation/simplifier.py", "check_results", (lambda: c_spmd.check_results_distribute_contract(True))) is False:
         raise RuntimeError("canary verified: engine vacuous on the hand-out region of check_results")
     st7, failed7, _e7 = D.verify_function(run, "generation/simplifier.py", "expand_or_factor", c_spmd.expand_or_factor_apply_contract, timeout_ms=10000, tag="apply",
@@ -141,6 +148,8 @@ def check(run):
         fq, desc, line = sfailed[0]
         run.violation("spmd:%s:%s" % (fq.split("::")[1], desc.split(" at line")[0]), "%s: structural SPMD obligation no longer holds: %s (%d failed)" % (fq, desc, len(sfailed)),
                       {"obligation": desc, "function": fq, "analysis": "pyvc/spmd.py collective_alignment / io_ownership"}, no_input=True)
+    if rfailed and not found:
+        D.report_structural(run, rfailed, "report", "contracts/c_spmd.py check_results_report_obligations")
     run.assume("A-spmd: every rank calls make_changes / initial_sympify with the replicated arguments equal on all ranks and its local lists as indexed by its rank number; "
                "collectives deliver what was sent (gather: list in rank order on the root, None elsewhere; bcast: the root's value everywhere)",
                "slice starts abstracted to LO with LO(0)=0, LO(size)=N, monotone (each proved as a lemma for the closed form of utils.split_idx); np.cumsum as prefix sums")
